@@ -264,7 +264,7 @@ func runC20(c *Ctx) {
 	o.Site(f.Pos(), "%s", p.Pos(f.Pos()))
 	if isDelegation(f) {
 		checkDelegation(o, f)
-	} else if callsSubtle(f) {
+	} else if callsSubtle(f) && hasEffectsBesidesCalls(f) {
 		o.Fail(f.Pos(), "XorBytes delegates to crypto/subtle.XORBytes but is not the pure delegation 'return subtle.XORBytes(dst, a, b)': extra statements change the result, other bytes of dst, or the aliasing behaviour")
 	} else {
 		legacyXorRules(o, f, p.Fset)
@@ -506,6 +506,7 @@ func legacyXorRules(o *Obligation, f *ssa.Function, fset *token.FileSet) {
 		o.Fail(token.NoPos, "%s: XorBytes panics explicitly: a destination of at least min(len(a), len(b)) bytes must be accepted (the only panic allowed is the bounds check of the xor routine itself)", pos(in.Pos()))
 	}
 	doneLoops := map[*ssa.Function]bool{}
+	doneSub := false
 	nPaths := 0
 	for pi := range paths {
 		pt := paths[pi]
@@ -545,7 +546,54 @@ func legacyXorRules(o *Obligation, f *ssa.Function, fset *token.FileSet) {
 				if sc != nil && sc.Pkg == f.Pkg && sc.Signature.Params().Len() == 4 {
 					ds = append(ds, disp{cl, idx, sc})
 				}
+				if callName(cl) == "crypto/subtle.XORBytes" && len(cl.Call.Args) == 3 {
+					ds = append(ds, disp{cl, idx, nil}) // the standard routine, given prefixes of a and b
+				}
 			}
+		}
+		// the standard routine as the one xor routine of the path: it is handed dst and a, b or their prefixes of
+		// length n, and its result (the minimum of the two lengths it is given) is n
+		if len(ds) == 1 && ds[0].fn == nil {
+			cl, idx := ds[0].call, ds[0].idx
+			okArgs := sameOrigin(pt.valueAt(cl.Call.Args[0], idx), ssa.Value(dst))
+			seenA, seenB := false, false
+			for _, av := range cl.Call.Args[1:] {
+				v := pt.valueAt(av, idx)
+				if sl, isSl := v.(*ssa.Slice); isSl {
+					if sl.Low != nil {
+						if k, isC := constInt(sl.Low); !isC || k != 0 {
+							okArgs = false
+						}
+					}
+					if sl.High == nil || !pf.w.lin(pt.valueAt(sl.High, idx)).eq(min) {
+						okArgs = false
+					}
+					v = pt.valueAt(sl.X, idx)
+				}
+				switch {
+				case sameOrigin(v, ssa.Value(a)):
+					seenA = true
+				case sameOrigin(v, ssa.Value(b)):
+					seenB = true
+				default:
+					okArgs = false
+				}
+			}
+			if !okArgs || !seenA || !seenB {
+				o.Fail(token.NoPos, "%s: crypto/subtle.XORBytes is not given dst and a, b (or their prefixes of length n)", pos(cl.Pos()))
+				continue
+			}
+			if minZero {
+				continue
+			}
+			if rv := pt.value(ret.Results[0]); rv != ssa.Value(cl) && !pf.w.lin(ret.Results[0]).eq(min) {
+				o.Fail(token.NoPos, "%s: XorBytes returns neither the standard routine's result nor n", pos(ret.Pos()))
+			}
+			if !doneSub {
+				doneSub = true
+				o.Sites = append(o.Sites, pos(cl.Pos())+" dispatch crypto/subtle.XORBytes")
+			}
+			continue
 		}
 		if minZero {
 			if !(nForm.eq(linConst(0)) || nForm.eq(min)) {
@@ -802,8 +850,38 @@ func xorLoops(o *Obligation, g *ssa.Function, pos func(token.Pos) string) {
 				}
 			}
 		}
-		loops = append(loops, loop{linOf(init, sym), boundF, es, in.Pos(), in})
-		o.Sites = append(o.Sites, fmt.Sprintf("%s %s: loop i from %s while i < %s", pos(in.Pos()), g.Name(), linOf(init, sym), boundF))
+		initF := linOf(init, sym)
+		// the three slices re-sliced from a common low bound (dt, at, bt := dst[t:n], a[t:n], b[t:n]): element i of
+		// the re-sliced slices is element t+i of the routine's own
+		lowOf := func(v ssa.Value) (linForm, bool) {
+			var base ssa.Value
+			if u, ok := v.(*ssa.UnOp); ok {
+				if i2, ok := origin(u.X).(*ssa.IndexAddr); ok {
+					base = i2.X
+				}
+			} else if i2, ok := v.(*ssa.IndexAddr); ok {
+				base = i2.X
+			}
+			if sl, ok := base.(*ssa.Slice); ok && sl.Low != nil {
+				if _, isPtr := sl.X.Type().Underlying().(*types.Pointer); !isPtr {
+					return linOf(sl.Low, sym), true
+				}
+			}
+			return linConst(0), false
+		}
+		if ld, okD := lowOf(ia); okD && es == 1 {
+			lx, okX := lowOf(x.X)
+			ly, okY := lowOf(x.Y)
+			if okX && okY && lx.eq(ld) && ly.eq(ld) {
+				initF = initF.add(ld, 1)
+				boundF = boundF.add(ld, 1)
+			} else {
+				o.Fail(token.NoPos, "%s: destination and operands of the loop of %s are re-sliced from different offsets", pos(in.Pos()), g.Name())
+				return
+			}
+		}
+		loops = append(loops, loop{initF, boundF, es, in.Pos(), in})
+		o.Sites = append(o.Sites, fmt.Sprintf("%s %s: loop i from %s while i < %s", pos(in.Pos()), g.Name(), initF, boundF))
 	})
 	// every store of a xor routine into memory it did not allocate is one of the recognised element stores
 	recognised := map[ssa.Instruction]bool{}
@@ -1006,4 +1084,25 @@ func xorTotal(h *ssa.Function, depth int) (int64, bool) {
 		return 0, false
 	}
 	return tot, true
+}
+
+// hasEffectsBesidesCalls: the function (with its private helpers) stores to memory it did not allocate, sends, or
+// starts goroutines: a wrapper around the standard routine must do none of that.
+func hasEffectsBesidesCalls(f *ssa.Function) bool {
+	bad := false
+	instrsOfU(f, func(in ssa.Instruction) {
+		switch x := in.(type) {
+		case *ssa.Store:
+			if _, isLocal := x.Addr.(*ssa.Alloc); !isLocal {
+				bad = true
+			}
+		case *ssa.MapUpdate, *ssa.Send, *ssa.Go, *ssa.Defer, *ssa.Panic:
+			bad = true
+		case *ssa.Call:
+			if b, isB := x.Call.Value.(*ssa.Builtin); isB && (b.Name() == "copy" || b.Name() == "clear" || b.Name() == "append") {
+				bad = true
+			}
+		}
+	})
+	return bad
 }
